@@ -581,7 +581,21 @@ fn slice(out: &mut Vec<GSpec>) {
 
 /// F-utf8: multi-byte terminals, all input forms.
 fn utf8(out: &mut Vec<GSpec>) {
-    let ts = strs(&["\"é\"", "\"a€\"", "^\"é\"", "^\"a€\"", "'a'..'€'", "ANY", "NEWLINE", "\"😀\"", "LETTER", "CURRENCY_SYMBOL"]);
+    let ts = strs(&[
+        "\"é\"",
+        "\"a€\"",
+        "^\"é\"",
+        "^\"a€\"",
+        "'a'..'€'",
+        "ANY",
+        "NEWLINE",
+        "\"😀\"",
+        "LETTER",
+        "CURRENCY_SYMBOL",
+        // ranges that start in ASCII and end outside, with a large low byte in the upper bound
+        "'a'..'é'",
+        "'\\u{00}'..'\\u{10FFFF}'",
+    ]);
     let mut q: Vec<String> = vec![];
     let mut t: Vec<String> = vec![];
     for x in &ts {
